@@ -376,6 +376,11 @@ def provider_race_case(draw, d):
             ncarry += 1
         else:
             reqs[name] = self_deriving(draw, d, rp, v, i)
+    if draw(st.integers(0, 4)) == 4:
+        # the same request submitted twice (client retry / double submit):
+        # the second copy changes nothing once the first is committed
+        import copy
+        reqs['B'] = copy.deepcopy(reqs['A'])
     return reqs
 
 
